@@ -522,6 +522,15 @@ func c05TwoCharOps(c *Ctx, rule string) {
 		}
 		chv, _ := constant.Int64Val(constant.ToInt(ch))
 		want := tt.spelling[a.Name()] + string(rune(chv))
+		// a second spelling of an operator the SQL standard defines: `<>` is `!=`
+		if syn, ok := map[string]string{"<>": "!="}[want]; ok && tt.spelling[b] == syn {
+			if !consumes {
+				c.Fail(rule, key+"|<>", cc.Pos(), "the second character of %q is not consumed", want)
+			} else {
+				c.OK(rule, key+"|<>", cc.Pos(), 2, "%q is the standard's other spelling of %s", want, b)
+			}
+			return true
+		}
 		switch {
 		case b == "" || tt.spelling[b] != want:
 			c.Fail(rule, key, cc.Pos(), "after %q followed by %q the scanner produces token %s (spelled %q), expected the token spelled %q", tt.spelling[a.Name()], string(rune(chv)), b, tt.spelling[b], want)
